@@ -410,4 +410,42 @@ theorem itoa_spec (v : Int) (max : Nat) (lo : -2 ^ 63 < v) (hlen : (itoaSpec v).
       rw [H.2, H.1]
       exact ⟨cstr_spec _ _ _ hA (digits_ne_zero _), by omega⟩
 
+/-! ### hex -/
+
+def hexchar (h : Nat) : Nat := if h < 10 then 48 + h else 87 + h
+
+/-- the regenerated table `ascii2hex` inverts the lower-case hex digit characters -/
+theorem tbl_hexchar : ∀ h < 16, tbl (hexchar h) = h := by decide
+
+set_option maxRecDepth 100000 in
+theorem byte_recombine : ∀ b < 256,
+    (tbl (hexchar (b / 16 % 16)) * 16) % 256 ||| tbl (hexchar (b % 16)) = b := by decide
+
+theorem bin2hex_cons (b : Nat) (t : Bytes) :
+    bin2hex (b :: t) = hexchar (b / 16 % 16) :: hexchar (b % 16) :: bin2hex t := by
+  simp [bin2hex, hexchar]
+
+theorem bin2hex_length (bs : Bytes) : (bin2hex bs).length = 2 * bs.length := by
+  induction bs with
+  | nil => rfl
+  | cons b t ih => rw [bin2hex_cons]; simp [ih]; omega
+
+theorem hex2binAux_bin2hex (bs : Bytes) (fuel : Nat) (hwf : ∀ b ∈ bs, b < 256)
+    (hlen : bs.length ≤ fuel) : hex2binAux (bin2hex bs) fuel = bs := by
+  induction bs generalizing fuel with
+  | nil => cases fuel <;> simp [bin2hex, hex2binAux]
+  | cons b t ih =>
+    cases fuel with
+    | zero => simp at hlen
+    | succ f =>
+      rw [bin2hex_cons, hex2binAux, byte_recombine b (hwf b (by simp)),
+        ih f (fun x hx => hwf x (by simp [hx])) (by simpa using hlen)]
+
+theorem hex2bin_bin2hex (bs : Bytes) (max : Nat) (hwf : ∀ b ∈ bs, b < 256) (hlen : bs.length ≤ max) :
+    hex2bin (bin2hex bs) max = bs := by
+  unfold hex2bin
+  have : ¬ ((bin2hex bs).length % 2 = 1) := by rw [bin2hex_length]; omega
+  simp only [this, if_false]
+  exact hex2binAux_bin2hex bs max hwf hlen
+
 end IwModel.Conv
